@@ -245,6 +245,40 @@ func runPropertyRaw(prop, tier string, forBaseline bool) *Report {
 		}
 		// a known finding whose obligation now discharges or is gone is not an error
 	}
+	if tier == "thorough" && !forBaseline && rep.Fatal == "" {
+		// thorough tier: besides the proof obligations (longer limits, all
+		// solvers must agree) the property's witness-search harnesses are run
+		// against the real code as a bounded cross-check of the contracts
+		// themselves (labelled bounded, never counted as proved).
+		var defs []harnessDef
+		loadJSON(filepath.Join(verifDir, "replay", "index.json"), &defs)
+		for _, d := range defs {
+			if d.Property != prop {
+				continue
+			}
+			out, fails := runHarness(d)
+			rep.Bounded = append(rep.Bounded, map[string]interface{}{"harness": d.File, "test": d.Test, "package": d.PkgDir,
+				"kind": "bounded witness search over a fixed input pool (cross-check, not a proof)", "failing_inputs": fails})
+			if len(fails) == 0 {
+				continue
+			}
+			if len(knownOpen) > 0 {
+				// the witnesses of an open known finding keep failing until it is repaired
+				for _, k := range knownOpen {
+					rep.Lines = append(rep.Lines, fmt.Sprintf("KNOWN-FINDING: property=%s harness %s still finds the recorded witness: %s", prop, d.File, k.Witness))
+				}
+				continue
+			}
+			rep.Violations++
+			path := filepath.Join(replayDir(prop), "harness-"+sanitize(d.PkgDir)+".json")
+			m := map[string]interface{}{"property": prop, "kind": "failing input found by the witness-search harness although every obligation discharged",
+				"harness": d.File, "failing_inputs": fails, "output_tail": tail(out, 4000), "failing_input_confirmed": true,
+				"explanation": "the contracts are too weak to exclude this behaviour (or an assumed contract is wrong): the property is violated on the real code for the listed input"}
+			b, _ := json.MarshalIndent(m, "", " ")
+			os.WriteFile(path, b, 0o644)
+			rep.Lines = append(rep.Lines, fmt.Sprintf("VIOLATION property=%s replay=%s", prop, path))
+		}
+	}
 	if rep.Obligations == 0 && rep.Fatal == "" && !forBaseline && rep.Violations == 0 {
 		rep.Fatal = "no obligations were generated for " + prop + " (vacuous check)"
 	}
